@@ -192,9 +192,10 @@ def run(prop, tier, quick_slices, thorough_slices, nontrivial, drive_profile="mi
         r2 = random.Random(rng.randrange(1 << 30))
         pool = [l for l in open(ef)] if os.path.getsize(ef) < 400_000_000 else []
         variants = []
-        for l in r2.sample(pool, min(len(pool), max(50, len(pool) // 8))):
+        allv = os.environ.get("VERIF_VARIANTS") == "all"      # soak mode: every schedule on every instantiation
+        for l in r2.sample(pool, len(pool) if allv else min(len(pool), max(50, len(pool) // 8))):
             variants.append(l.replace('"idw":16', '"idw":32'))
-        for l in r2.sample(pool, min(len(pool), max(50, len(pool) // 12))):
+        for l in r2.sample(pool, len(pool) if allv else min(len(pool), max(50, len(pool) // 12))):
             v = l.replace('"role":"client"', '"role":"any"', 1).replace('"role":"server"', '"role":"any"', 1)
             if v != l:
                 variants.append(v)
